@@ -9,6 +9,7 @@
 #include <vector>
 #include <set>
 #include <map>
+#include <memory>
 
 #include <boost/graph/graph_traits.hpp>
 #include <boost/graph/graph_concepts.hpp>
@@ -154,7 +155,13 @@ namespace parmcb {
 #ifdef PARMCB_HAVE_TBB
     inline void set_global_tbb_concurrency(const std::size_t hardware_concurrency_hint) {
 #if TBB_VERSION_MAJOR > 2020
-    	oneapi::tbb::global_control global_limit(oneapi::tbb::global_control::max_allowed_parallelism, hardware_concurrency_hint);
+        // A global_control limits the parallelism only while it is alive, keep
+        // it until the next call replaces it.
+        static std::unique_ptr<oneapi::tbb::global_control> global_limit;
+        global_limit.reset();
+        global_limit.reset(
+                new oneapi::tbb::global_control(oneapi::tbb::global_control::max_allowed_parallelism,
+                        hardware_concurrency_hint));
 #else
     	tbb::task_scheduler_init init(hardware_concurrency_hint);
 #endif
